@@ -6,6 +6,7 @@ import (
 	"github.com/invopop/gobl/cbc"
 	"github.com/invopop/gobl/internal/vrt"
 	"github.com/invopop/gobl/l10n"
+	"github.com/invopop/gobl/org"
 	"github.com/invopop/gobl/tax"
 )
 
@@ -62,4 +63,28 @@ func H_C14V_Addons() {
 	}
 	_ = inv.Validate()
 	vrt.Reach("validate-returned")
+}
+
+// H_C14V_ScenarioNotes: preparing the scenario notes of an invoice never panics, whatever notes the document already
+// carries: none to three notes, each a copy of a scenario's own note (same key and source), another note, or a nil
+// entry, for ES and IT invoices with a tag that selects a scenario carrying a note.
+func H_C14V_ScenarioNotes() {
+	vrt.Unwind(20000)
+	country := []l10n.TaxCountryCode{"ES", "IT"}[vrt.Choice("country", 2)]
+	inv := &Invoice{Type: InvoiceTypeStandard, Regime: tax.WithRegime(country), Tags: tax.WithTags(tax.TagReverseCharge)}
+	n := vrt.Choice("notes", 4)
+	for k := 0; k < n; k++ {
+		switch vrt.Choice("note"+string(rune('0'+k)), 4) {
+		case 0:
+			inv.Notes = append(inv.Notes, &org.Note{Key: org.NoteKeyLegal, Src: tax.TagReverseCharge, Text: "copy of the scenario note"})
+		case 1:
+			inv.Notes = append(inv.Notes, &org.Note{Key: org.NoteKeyGeneral, Text: "something else"})
+		case 2:
+			inv.Notes = append(inv.Notes, &org.Note{Key: org.NoteKeyLegal, Src: "other", Text: "another source"})
+		case 3:
+			inv.Notes = append(inv.Notes, nil)
+		}
+	}
+	_ = inv.prepareScenarios()
+	vrt.Reach("scenarios-prepared")
 }
